@@ -165,6 +165,125 @@ def deductive(rep: Report, tier):
     rep.add(Obligation(f"{P}.lemma.normalisation", "spec", "all-shapes", v.status, v.backend, v.secs, v.model, kind="lemma"))
     rep.canary("C19.canary.unnormalised", smt.prove([x > 0, s >= 0, s * s == x], (1 / x) * (1 / x) * x == 1, 5).status == smt.REFUTED)
     nonhermitian_tail(rep)
+    complex_iteration(rep)
+
+
+def complex_iteration(rep: Report):
+    """_power_iteration_complex in the free *-algebra (complex matrices are a *-algebra with a positive trace: the laws used -
+    linearity, tr(X^* X) >= 0, ||cX||_F = |c| ||X||_F for real c - are the same as for quaternion matrices).  For every M, every
+    budget and every tolerance setting the returned vector is NOT the zero vector (loop invariant ||v||_F > 0: the start vector is
+    a non-zero Gaussian vector divided by a positive number, every later iterate is w / ||w|| with ||w|| != 0), which is what the
+    final normalisation of the complex-adjoint variant needs."""
+    from .. import term as tm
+    from ..values import SymList
+    from ..idx import CScal
+
+    class CMat(HMat):
+        """abstract complex matrix / vector"""
+        takes_complex_scalar = True
+
+        def __matmul__(self, o):
+            if isinstance(o, HMat):
+                return CMat(self.p @ o.p)
+            return NotImplemented
+
+        def _wrap(self, r):
+            return CMat(r.p) if isinstance(r, HMat) and not isinstance(r, CMat) else r
+
+        def __add__(self, o):
+            if {getattr(self, "role", None), getattr(o, "role", None)} == {"gauss", "i_times_gauss"}:
+                # g1 + 1j * g2 with independent standard normal g1, g2: a complex Gaussian vector; it is the zero vector with probability 0
+                z = CMat(fresh_hmat(cur().fresh_name("z0"), self.p.rows, self.p.cols).p)
+                cur().assume(ncm.fro2(z.p) > 0)
+                cur().ghost["start_assumed_nonzero"] = True
+                return z
+            return self._wrap(HMat.__add__(self, o))
+
+        __radd__ = __add__
+
+        def __sub__(self, o):
+            return self._wrap(HMat.__sub__(self, o))
+
+        def __truediv__(self, s):
+            return self._wrap(HMat.__truediv__(self, s))
+
+        def __mul__(self, s):
+            if isinstance(s, CScal):
+                # complex multiple of an abstract complex array: an arbitrary array of the same shape (nothing is claimed about it)
+                out = CMat(fresh_hmat(cur().fresh_name("cx"), self.p.rows, self.p.cols).p)
+                if getattr(self, "role", None) == "gauss":
+                    out.role = "i_times_gauss"
+                return out
+            return self._wrap(HMat.__mul__(self, s))
+
+        __rmul__ = __mul__
+
+        def _np_norm(self, args, ord=None):
+            return tm.NPFloat(ssqrt(ncm.fro2(self.p)).z)
+
+    class Rng:
+        qv_value = True
+
+        def has_attr(self, name):
+            return name == "standard_normal"
+
+        def standard_normal(self, n):
+            g = CMat(fresh_hmat(cur().fresh_name("gauss"), n, 1).p)
+            g.role = "gauss"
+            return g
+
+    def vdot(a, b):
+        k = cur().fresh_name("vdot")
+        return tm.np_complex(SReal.var("re_" + k), SReal.var("im_" + k))
+
+    class Iter(LoopRule):
+        modifies = ("v", "lam", "residuals")
+
+        def establish(self, it, fr, start):
+            v = fr.vars.get("v")
+            cur().require("inv.establish", isinstance(v, CMat) and (ncm.fro2(v.p) > 0), "the scaled start vector is not the zero vector", key="cpi.inv.establish.nonzero")
+
+        def havoc(self, it, fr, k):
+            c = cur()
+            M = fr.vars["M"]
+            v = CMat(fresh_hmat(c.fresh_name("vk"), M.shape[0], 1).p)
+            c.assume(ncm.fro2(v.p) > 0)
+            fr.vars["v"] = v
+            fr.vars["lam"] = tm.np_complex(SReal.var(c.fresh_name("lam_re")), SReal.var(c.fresh_name("lam_im")))
+            L = SInt.var(c.fresh_name("n_res"))
+            c.assume(L >= 0)
+            fr.vars["residuals"] = SymList(L, "residuals")
+
+        def preserve(self, it, fr, k):
+            v = fr.vars.get("v")
+            cur().require("inv.preserve", isinstance(v, CMat) and (ncm.fro2(v.p) > 0), "the new iterate is not the zero vector", key="cpi.inv.preserve.nonzero")
+
+    lib = Library("nc")
+    lib.qmode = "H"
+    lib.np.table["random"].table["default_rng"] = lambda seed=None: Rng()
+    lib.np.table["vdot"] = vdot
+    lib.np.table["isfinite"] = lambda x: True          # A1: floats as reals
+    FN = U + "_power_iteration_complex"
+    for rt_none in (False, True):
+        def setup(I, ctx, rt_none=rt_none):
+            (n,) = dims(ctx, "n2")
+            M = CMat(fresh_hmat("M", n, n).p)
+            K, et, rtol = SInt.var("max_iter"), SReal.var("eig_tol"), SReal.var("res_tol")
+            ctx.assume(sand(K >= 0, et >= 0, rtol >= 0), base=True)
+            return [M], dict(max_iter=K, eig_tol=et, res_tol=None if rt_none else rtol, seed=0), (M, n)
+
+        def post(I, ctx, outcome, val, aux):
+            M, n = aux
+            ok = outcome == "return" and isinstance(val, tuple) and len(val) == 3
+            out = [("returns_value_vector_history", bool(ok))]
+            if not ok:
+                return out
+            v = val[1]
+            out.append(("returned_vector_is_not_zero", isinstance(v, CMat) and (ncm.fro2(v.p) > 0)))
+            out.append(("returned_vector_length", isinstance(v, CMat) and sand(v.shape[0] == n, v.shape[1] == 1)))
+            return out
+        run_case(rep, P, FN, f"res_tol_{'none' if rt_none else 'given'}", setup, post, lib=lib, contracts=dict(ALGEBRA), loop_rules={(FN, 0): Iter()},
+                 clauses=["returns_value_vector_history", "returned_vector_is_not_zero", "returned_vector_length"], replay=replay_pi, timeout_s=20)
 
 
 def nonhermitian_tail(rep: Report):
@@ -172,8 +291,11 @@ def nonhermitian_tail(rep: Report):
     complex iteration (arbitrary complex vector of even length 2n, arbitrary history) and every option combination the
     returned quaternion vector is  q / ||q||_F  of one and the same q (whatever q the mapping back builds - the property
     says nothing about the mapping itself, so its component order and the purification choice are deliberately NOT
-    pinned down).  With the scalar lemma C19.lemma.normalisation this is the unit-norm clause for all n; the only way
-    out is q = 0 (then q is returned as is)."""
+    pinned down).  With the scalar lemma C19.lemma.normalisation this is the unit-norm clause for all n.  The only way
+    out would be q = 0 (q is then returned as is): excluded for the mapping as written, by the postcondition of the complex
+    iteration (v_c != 0, discharged in complex_iteration) and two layout facts about the Frobenius norm (a vector cut in two
+    halves; a quaternion array stacked from Re/Im of two complex arrays).  If the code builds q in another way the layout
+    facts simply do not apply and the fall-through clause is undecided / refuted only when q can really be 0."""
     from .. import term as tm
     from ..values import SymList
     from ..idx import CScal
@@ -192,10 +314,28 @@ def nonhermitian_tail(rep: Report):
         L = SInt.var("n_residuals")
         c.assume(L >= 0)
         c.ghost["cpi"] = dict(M=M, v=vc, lam=lam, kwargs=dict(kwargs))
+        # postcondition of _power_iteration_complex, discharged by complex_iteration(): the returned vector is not the zero vector
+        c.assume(tm.norm_term([vc]) > 0)
         return lam, vc, SymList(L, "residuals")
 
     def k_fro(I, args, kwargs):
-        return tm.norm_term([args[0]])
+        """quat_frobenius_norm by contract (C15: root of the sum of the squared components), with the layout fact for a quaternion array
+        assembled by as_quat_array(np.stack([p0, p1, p2, p3], axis=-1)):  ||q||^2 = sum ||p_i||^2,  ||Z||^2 = ||Re Z||^2 + ||Im Z||^2,  ||0|| = 0."""
+        c = cur()
+        X = args[0]
+        nq = tm.norm_term([X])
+        node = tm.strip(X.node)
+        if node[0] == "asquat" and node[1][0] == "stack" and len(node[1][1]) == 4 and node[1][2] == -1:
+            # ||q||^2 = sum of the squared norms of the four stacked planes (any planes, any order)
+            planes = [tm.norm_term([tm.TArr(nd, ())]) for nd in node[1][1]]
+            c.assume(nq * nq == planes[0] * planes[0] + planes[1] * planes[1] + planes[2] * planes[2] + planes[3] * planes[3])
+            # ||Z||^2 = ||Re Z||^2 + ||Im Z||^2 for every complex array Z of which a plane is the real or imaginary part; ||0|| = 0
+            for Z in {nd[1] for nd in node[1][1] if nd[0] in ("real", "imag")}:
+                nz, nr, ni = (tm.norm_term([tm.TArr(x, ())]) for x in (Z, ("real", Z), ("imag", Z)))
+                c.assume(nz * nz == nr * nr + ni * ni)
+                if Z[0] == "zeros":
+                    c.assume(nz == 0)
+        return nq
 
     contracts = {U + "_is_hermitian_quat": k_isherm(False), U + "quaternion_to_complex_adjoint": k_adj,
                  U + "_power_iteration_complex": k_cpi, U + "quat_frobenius_norm": k_fro}
@@ -228,6 +368,13 @@ def nonhermitian_tail(rep: Report):
                     normalised = node[0] == "div" and len(node) == 3 and _scalar_of(node[2]) is not None
                     base = node[1] if normalised else node
                     nq = tm.norm_term([tm.TArr(base, (n,))])
+                    # with the postcondition of the complex iteration (v_c != 0) and the layout facts the un-normalised fall-through is unreachable
+                    if normalised:
+                        out.append(("never_the_unnormalised_fall_through", True))
+                    else:   # feasible in the model: either q can really be 0 or the layout facts do not cover this construction of q - not decided here
+                        out.append(("never_the_unnormalised_fall_through", smt.UNDECIDED, "provenance", 0.0,
+                                    "a path on which q is returned without normalisation is feasible in the model (q = 0 not excluded by the layout facts for this construction of q)"))
+                    out.append(("hypotheses_consistent", ctx.valid(SBool(z3.BoolVal(False))) is not True))
                     if normalised:
                         out.append(("vector_is_q_over_its_own_frobenius_norm", SBool.mk(SReal.lift(_scalar_of(node[2])) == SReal.lift(nq))))
                     else:
@@ -236,7 +383,7 @@ def nonhermitian_tail(rep: Report):
                     return out
                 cl = ["returns_value_history_and_on_request_the_vector"]
                 if retv:
-                    cl += ["vector_shape", "vector_is_q_over_its_own_frobenius_norm"]
+                    cl += ["vector_shape", "vector_is_q_over_its_own_frobenius_norm", "never_the_unnormalised_fall_through", "hypotheses_consistent"]
                 lib = tm.install(Library("idx"))
                 run_case(rep, P, FN, f"adjoint_path.purify_{purify}.{fmt}.{'vector' if retv else 'value_only'}", setup, post, lib=lib, contracts=contracts,
                          clauses=cl, replay=replay_pi, timeout_s=20)
